@@ -136,7 +136,9 @@ CLAIMED.update({
          'this check\'s seeding round and fixed), synsets(form): as a set under the same agreement, as a list when the relevant '
          'form rows also come in the same order (with an example that the order matters). Holds for databases satisfying db_ok (unique '
          'rowids, no lexicon rowid 0, senses resolve), shown to hold on real dumps. Forms/tags/pronunciations contributed by '
-         'extensions are outside the theorems: known findings F14, F3 (decided by the oracle with signatures).',
+         'extensions are outside the theorems: known findings F14, F3 (decided by the oracle with signatures); F14 is also '
+         'stated as a machine-checked witness (two databases agreeing on every row of the selected lexicon on which the form '
+         'search differs; the frame hypothesis it violates is exactly agree_sense_forms).',
          CORE_TRUST, 'DESIGN.md section 5 C04, Appendix E'),
  'C09': ('Coq proof over the Gallina model of Wordnet.words/senses/synsets (_find_helper, find_entries/find_senses/find_synsets) '
          'written from wn/_core.py and wn/_queries.py; differential correspondence of search batteries (lemmatizer tables with '
@@ -147,7 +149,8 @@ CLAIMED.update({
          '(original or normalized column, lemma only when search_all_forms is off) with the requested pos inside the selection; '
          'one pass is complete for entries, senses and synsets with a matching form. The statement about an empty proposal set '
          '(no form restriction) is part of the theorem. For synsets the sense that links the form to the synset belongs to the '
-         'selection (defect F22, found here and fixed). Extension-contributed forms: known finding F14.',
+         'selection (defect F22, found here and fixed). Extension-contributed forms: known finding F14 (with a machine-checked '
+         'witness on a concrete pair of databases; lemma-only search does not leak).',
          CORE_TRUST, 'DESIGN.md section 5 C09, Appendix E'),
  'C10': ('Coq proof over the Gallina model of navigation (Sense.word/synset, Word.senses/synsets, Synset.senses/words/lemmas, '
          'translate, entity equality keys) written from wn/_core.py; differential correspondence of the observation battery incl. '
